@@ -477,3 +477,6 @@ LEVEL_NOTE = ("Trusted: Lean kernel; harness + pm_C03 judge; the hand transcript
 HARNESS_BIN = "run-genbank"
 EXTRACT_BINS = []
 TIMEOUT_MS = 30000
+
+# the same requests executed 8 at a time in concurrent goroutines (check: PARALLEL / harness: VERIF_PAR)
+PARALLEL = {"quick": {"par": 8, "max_cases": 4000}, "thorough": {"par": 8, "max_cases": 40000, "race": True}}
